@@ -134,6 +134,9 @@ def http_request(method, path, headers, body, version='HTTP/1.1'):
     return head.encode('latin-1', errors='replace') + body
 
 
+_HEADER_LINE = re.compile(rb"^[!#$%&'*+\-.^_`|~0-9A-Za-z]+:[^\r\n]*$")  # RFC 7230 header-field, no obs-fold
+
+
 def judge_response(raw: bytes, exc, reader, label, require_response=True):
     """Findings common to both parts: nothing escapes, no spin, an HTTP response with a status line, body is a SOAP
     envelope (fault shape if it is a fault) or empty / plain text for HTTP level errors."""
@@ -154,7 +157,13 @@ def judge_response(raw: bytes, exc, reader, label, require_response=True):
     status = int(m.group(1))
     head, _, body = raw.partition(b'\r\n\r\n')
     headers = {}
-    for ln in head.split(b'\r\n')[1:]:
+    lines = head.split(b'\r\n')
+    if b'\n' in lines[0] or b'\r' in lines[0]:
+        return [(f'{P}/{label}/response-head-malformed', f'line break inside the status line: {lines[0][:120]!r}')], status, None
+    for ln in lines[1:]:
+        if not _HEADER_LINE.match(ln):
+            # e.g. a reason phrase with line breaks: whatever follows the first line break is read as header fields
+            return [(f'{P}/{label}/response-head-malformed', f'status {status}, header line {ln[:80]!r}')], status, None
         k, _, v = ln.partition(b':')
         headers[k.strip().lower()] = v.strip()
     if b'content-length' in headers and headers[b'content-length'].isdigit():
@@ -216,7 +225,10 @@ def st_framing():
     return st.fixed_dictionaries({
         'method': st.sampled_from(['POST', 'POST', 'POST', 'GET', 'PUT', 'DELETE', 'post', '']),
         'path': st.sampled_from(['valid', 'valid', 'valid-sub', '', '?', '?wsdl', 'noslash', '/unknown/x', '/a/b/c/d/e/f', '/%ZZ', '//', '/',
-                                 'valid?wsdl', 'http://h/abs']),
+                                 'valid?wsdl', 'http://h/abs',
+                                 'valid+/G\x01et', 'valid-last\x01', 'valid+\x7f', 'valid+/\xe4', 'valid+#frag', 'valid+;p=1',
+                                 'valid+%00', 'valid+/%2F', 'http://[x/', '//[x', 'http://h:99999/x', 'valid-abs', 'valid-abs-bad',
+                                 '/\x01', '*', 'valid+\\x']),
         'version': st.sampled_from(['HTTP/1.1', 'HTTP/1.1', 'HTTP/1.0', 'HTTP/9.9', 'HTTP/1.1 x']),
         'cl': cl, 'chunk': chunk,
         'coding': st.sampled_from(['none', 'none', 'gzip', 'gzip-corrupt', 'br', 'x-lz4', 'lz4-corrupt', 'GZIP', 'gzip,gzip']),
@@ -237,7 +249,11 @@ def framing_case(ctx, c):
         body, valid_path = base['body'], base['path']
     else:
         body, valid_path = bytes(c['body']), corpus[0]['path']
-    path = {'valid': valid_path, 'valid-sub': valid_path + '/extra', 'valid?wsdl': valid_path + '/?wsdl'}.get(c['path'], c['path'])
+    path = {'valid': valid_path, 'valid-sub': valid_path + '/extra', 'valid?wsdl': valid_path + '/?wsdl',
+            'valid-last\x01': valid_path.rsplit('/', 1)[0] + '/G\x01et', 'valid-abs': 'http://h' + valid_path,
+            'valid-abs-bad': 'http://[h' + valid_path}.get(c['path'], c['path'])
+    if path.startswith('valid+'):
+        path = valid_path + path[len('valid+'):]
     payload = body
     headers = [('Host', 'h'), ('Content-Type', 'application/soap+xml; charset=utf-8')]
     coding = c['coding']
@@ -329,7 +345,8 @@ def st_mutation():
         st.tuples(st.just('entity_text'), st.integers(0, 200), st.sampled_from(['xxe', 'int', 'param'])).map(list),
         st.tuples(st.just('swap_action'), st.sampled_from(['', 'urn:nope', 'http://schemas.xmlsoap.org/ws/2004/08/eventing/Unsubscribe',
                                                            'http://standards.ieee.org/downloads/11073/11073-20701-2018/GetService/GetMdib'])).map(list),
-        st.tuples(st.just('path'), st.sampled_from(['', '/', '/nope', 'SUFFIX/x', 'SUFFIX/../..', '?', 'PREFIXONLY'])).map(list),
+        st.tuples(st.just('path'), st.sampled_from(['', '/', '/nope', 'SUFFIX/x', 'SUFFIX/../..', '?', 'PREFIXONLY', 'SUFFIX/G\x01et',
+                                                    'LAST\x01', 'SUFFIX\x7f', 'SUFFIX#f', 'SUFFIX;p', 'ABS', 'ABS-BAD', 'SUFFIX/\xe4'])).map(list),
         st.tuples(st.just('doctype'), st.sampled_from(['xxe', 'int', 'param', 'bomb', 'http'])).map(list),
         st.tuples(st.just('truncate'), st.integers(1, 3000)).map(list),
         st.tuples(st.just('prefix'), st.sampled_from(['bom', 'utf16', 'latin1decl', 'junk', 'ws'])).map(list),
@@ -393,7 +410,8 @@ def apply_mutations(base, muts, s):
                 a.text = mu[1]
         elif kind == 'path':
             first = '/' + path.strip('/').split('/')[0]
-            path = {'SUFFIX/x': path + '/x', 'SUFFIX/../..': path + '/../..', 'PREFIXONLY': first}.get(mu[1], mu[1])
+            path = {'PREFIXONLY': first, 'LAST\x01': path.rsplit('/', 1)[0] + '/G\x01et', 'ABS': 'http://h' + path,
+                    'ABS-BAD': 'http://[h' + path}.get(mu[1], path + mu[1][len('SUFFIX'):] if mu[1].startswith('SUFFIX') else mu[1])
         elif kind == 'doctype':
             doctype = mu[1]
         elif kind == 'xinclude':
